@@ -287,6 +287,22 @@ func deepCases(tier string) []deepCase {
 			out = append(out, deepCase{name, b})
 		}
 	}
+	// reserved additional-information values (28, 29, 30) and the indefinite-length / break marker (31), which this
+	// codec does not support, for every major type, followed by 0..200 octets: with enough octets behind it a head
+	// that is wrongly taken to have a 16/32/64/128-octet argument does not end in a short read any more
+	for major := 0; major < 8; major++ {
+		for ai := 28; ai <= 31; ai++ {
+			for _, tail := range []int{0, 1, 8, 15, 16, 17, 32, 33, 64, 65, 128, 129, 200} {
+				for _, fill := range []byte{0x00, 0x01, 0xff} {
+					h := byte(major<<5 | ai)
+					add(fmt.Sprintf("reserved head %02x + %d x %02x", h, tail, fill), append([]byte{h}, bytes.Repeat([]byte{fill}, tail)...))
+					if fill == 0x00 {
+						add(fmt.Sprintf("reserved head %02x + %d x %02x inside an array", h, tail, fill), append([]byte{0x82, h}, bytes.Repeat([]byte{fill}, tail)...))
+					}
+				}
+			}
+		}
+	}
 	for d := 1; d <= maxDepth; d *= 2 {
 		dd := d
 		if dd == 1<<16 {
